@@ -442,15 +442,22 @@ theorem inv_copyLike {w w' : World} {sid oid : Nat} {R : Mat} (h : Inv w.s) (hs 
       · cases he
       · split at he
         · cases he
-        · rename_i w1 hw1
-          cases he
-          exact inv_setPhases (w' := w1) h hw1
+        · cases he; exact ⟨h, rfl⟩
+      · split at he
+        · cases he
+        · cases he
+          exact ⟨inv_rebind (sid := sid) h true (w.stream oid).phases none (w.stream sid).th R, rfl⟩
     · -- multi ← single
       split at he
       · cases he
-      · split at he
+      · rename_i w1 hw1
+        have h1 : Inv w1.s ∧ w1.s.nstreams = w.s.nstreams := by
+          split at hw1
+          · cases hw1; exact ⟨h, rfl⟩
+          · exact inv_expandPhases h hs hw1
+        split at he
         · cases he
-        · cases he; exact ⟨h, rfl⟩
+        · cases he; exact h1
     · -- multi ← multi
       split at he
       · cases he
@@ -470,16 +477,22 @@ theorem sync_s {w w' : World} {sid : Nat} {T P : Rat} {ph : Option Char} {R : Ma
   · cases he
   · cases he; rfl
 
-theorem mixInto_s {w w' : World} {sid : Nat} {others : List Char} {P : Rat} {R : Mat}
-    (he : w.mixInto sid others P R = .ok w') : w'.s = w.s := by
+theorem inv_mixInto {w w' : World} {sid : Nat} {others : List Char} {P : Rat} {R : Mat} (h : Inv w.s)
+    (hs : sid < w.s.nstreams) (he : w.mixInto sid others P R = .ok w') :
+    Inv w'.s ∧ w'.s.nstreams = w.s.nstreams := by
   simp only [World.mixInto] at he
   split at he
   · cases he
   · split at he
     · cases he
-    · split at he
+    · rename_i w1 hw1
+      have h1 : Inv w1.s ∧ w1.s.nstreams = w.s.nstreams := by
+        split at hw1
+        · cases hw1; exact ⟨h, rfl⟩
+        · exact inv_expandPhases h hs hw1
+      split at he
       · cases he
-      · cases he; rfl
+      · cases he; exact h1
 
 theorem inv_getElem {w w' : World} {sid : Nat} {d : Dim} {ph : Option Char} {i : Nat} {V : Mat}
     {vid : Option Nat} {x : Rat} (h : Inv w.s) (hs : sid < w.s.nstreams)
@@ -606,7 +619,7 @@ theorem exec_inv {w w' : World} {op : Op} {out : Out} (h : Inv w.s) (he : w.exec
       simp only [Except.bind, okShape] at he
       split at he
       · cases he
-      · rename_i w1 hw1; cases he; rw [mixInto_s hw1]; exact h
+      · rename_i w1 hw1; cases he; exact (inv_mixInto h (hsid s (by simp [Op.sids])) hw1).1
     | readMol s => cases he; exact h
     | readMass s =>
       cases he
